@@ -15,7 +15,8 @@ def run(ctx):
     py = ctx.python()
     ps, ms = scopes.py_scope("C13"), scopes.module_scope("C13")
     tbl = lambda f: "_table_" in f and not f.startswith("tsk_table_collection") and not f.startswith("tsk_table_sorter")
-    lib_schema.all_families(ctx, P, funcs=tbl)
+    S = lib_schema.all_families(ctx, P, funcs=tbl)
+    lib_schema.getters(ctx, P, S)
     lib_module.array_flags(ctx, P, only=ms)
     lib_module.owned_arrays(ctx, P)
     lib_module.format_types(ctx, P, only=ms)
